@@ -98,17 +98,8 @@ func pipelineWorld(r *R) {
 	}
 	cbTotal := res.b.cbCalls
 	nextTotal := res.nextCalls
-	// user callbacks are called exactly as often as the documented function needs: the lazy model
-	// calls its predicates and mapping functions once per item that reaches them, and read to the
-	// end, fault-free, the library must have made the same number of calls
-	if r.Focus == "C07" && !prog.has("mapstream") && !prog.has("batch") && !prog.has("merge") {
-		r.Probe("callback-count-checked")
-		if cbTotal != env.cbCalls {
-			r.Violate("C07", "callback-count/"+prog.op, "read to the end without faults, the library called the user's predicates / mapping functions %d times; the documented function needs %d calls (program %v)", cbTotal, env.cbCalls, prog)
-			return
-		}
-	}
-
+	// (How often user callbacks are called is not part of the property - it speaks of source items -
+	// so it is not judged: a correct implementation may evaluate a pure predicate twice.)
 	if r.Focus == "C07" {
 		// reducers on fresh instantiations
 		for _, mode := range []string{"collect", "last", "reduce", "one"} {
